@@ -970,3 +970,134 @@ func sizeBound(t *Term) (uint64, *Term, bool) {
 	}
 	return m, bad, true
 }
+
+// subst rebuilds t with the Boolean/bit-vector variables in env replaced by constants, through the simplifying
+// constructors (so that everything decided by the assignment folds away). memo is shared between calls that use
+// the same env.
+func subst(t *Term, env map[string]*Term, memo map[int]*Term) *Term {
+	if r, ok := memo[t.id]; ok {
+		return r
+	}
+	type fr struct {
+		t *Term
+		i int
+	}
+	stack := []fr{{t, 0}}
+	for len(stack) > 0 {
+		top := &stack[len(stack)-1]
+		if _, ok := memo[top.t.id]; ok {
+			stack = stack[:len(stack)-1]
+			continue
+		}
+		if top.i < len(top.t.args) {
+			a := top.t.args[top.i]
+			top.i++
+			if _, ok := memo[a.id]; !ok {
+				stack = append(stack, fr{a, 0})
+			}
+			continue
+		}
+		x := top.t
+		var r *Term
+		switch x.op {
+		case OConst:
+			r = x
+		case OVar:
+			if v, ok := env[x.name]; ok {
+				r = v
+			} else {
+				r = x
+			}
+		default:
+			as := make([]*Term, len(x.args))
+			same := true
+			for i, a := range x.args {
+				as[i] = memo[a.id]
+				if as[i] != a {
+					same = false
+				}
+			}
+			if same {
+				r = x
+			} else {
+				r = rebuild(x, as)
+			}
+		}
+		memo[x.id] = r
+		stack = stack[:len(stack)-1]
+	}
+	return memo[t.id]
+}
+
+func rebuild(x *Term, as []*Term) *Term {
+	switch x.op {
+	case ONot:
+		return Not(as[0])
+	case OAnd:
+		return And(as...)
+	case OOr:
+		return Or(as...)
+	case OIte:
+		return Ite(as[0], as[1], as[2])
+	case OEq:
+		return Eq(as[0], as[1])
+	case OAdd:
+		return Add(as[0], as[1])
+	case OSub:
+		return Sub(as[0], as[1])
+	case OMul:
+		return Mul(as[0], as[1])
+	case OUlt:
+		return Ult(as[0], as[1])
+	case OSlt:
+		return Slt(as[0], as[1])
+	case OBVAnd:
+		return BVAnd(as[0], as[1])
+	case OBVOr:
+		return BVOr(as[0], as[1])
+	case OBVXor:
+		return BVXor(as[0], as[1])
+	case OShl:
+		return Shl(as[0], as[1])
+	case OLshr:
+		return Lshr(as[0], as[1])
+	case OAshr:
+		return Ashr(as[0], as[1])
+	case OZext:
+		return Zext(as[0], x.w)
+	case OSext:
+		return Sext(as[0], x.w)
+	case OExtract:
+		return Extract(as[0], x.w)
+	case OSdiv:
+		return Sdiv(as[0], as[1])
+	case OUdiv:
+		return Udiv(as[0], as[1])
+	case OSrem:
+		return Srem(as[0], as[1])
+	case OUrem:
+		return Urem(as[0], as[1])
+	case OUF:
+		return UF(x.name, x.w, as...)
+	}
+	panic("rebuild: unknown op")
+}
+
+// dagSize counts the nodes reachable from the given terms.
+func dagSize(ts ...*Term) int {
+	seen := map[int]bool{}
+	var st []*Term
+	st = append(st, ts...)
+	n := 0
+	for len(st) > 0 {
+		t := st[len(st)-1]
+		st = st[:len(st)-1]
+		if seen[t.id] {
+			continue
+		}
+		seen[t.id] = true
+		n++
+		st = append(st, t.args...)
+	}
+	return n
+}
